@@ -2,6 +2,7 @@
 (the registry is filtered by property id)."""
 PROPS = {
     'C10': ['mpgverif.harness.c10_rules', 'mpgverif.harness.c10_digest', 'mpgverif.harness.c12_index'],
+    'C11': ['mpgverif.harness.c11_coords', 'mpgverif.harness.c11_gene'],
     'C12': ['mpgverif.harness.c12_index'],
     'C04': ['mpgverif.harness.callvariant_loop', 'mpgverif.harness.c12_index'],
     'C06': ['mpgverif.harness.callvariant_loop'],
